@@ -94,6 +94,8 @@ Definition s_c13 (pre post : obs) (sender : addr) (o : op) (ok : bool) : N :=
                 | _, _ => false
                 end) then 3                                             (* role changed improperly *)
   else if ok && negb by_minter && match o with Mint _ _ | UpdateMinter _ => true | _ => false end then 4
+  else if (match minter q with Some (_, Some c) => c <? sum (balances q) | _ => false end) then 5
+       (* the tokens that exist (listed balances) add up to more than the cap, whatever supply is reported *)
   else 0.
 
 (* ---------------------------------------------------------------------------------------- *)
